@@ -1,2 +1,4 @@
+pub mod game;
 pub mod pos;
+pub use game::*;
 pub use pos::*;
